@@ -231,6 +231,28 @@ def check_replacement(rec, rng, case, full_ob, kind):
             whole = harness.parse(text)
             if not whole.ok:
                 rec.cls("invalid_unselected_section_really_invalid")
+            # ... and when the invalid section IS among the selected ones (explicitly, or because nothing is excluded): the parse may
+            # refuse the file with a documented error; if it returns a chart instead, every healthy selected track is in it, as parsed
+            # alone - a selection never comes back silently short of tracks that exist in the file
+            vpair = hdr[victim]
+            for how, o2 in (("every track selected explicitly", harness.parse(text, harness.pairs(others[:1] + [vpair] + others[1:]))),
+                            ("no selection", whole)):
+                rec.ev()
+                if not o2.ok:
+                    if isinstance(o2.exc, harness.ALLOWED_ERRORS):
+                        rec.cls("invalid_selected_section_refused")
+                    else:
+                        rec.violation("interference", f"[{victim}] made invalid ({kind}) and selected ({how}): the parse raised "
+                                      f"{harness.exc_str(o2.exc)}, which is not one of the documented errors", rc, f"invalid-selected:wrong-error:{kind}")
+                    continue
+                ob2 = harness.obs(o2.chart)
+                short = [f"{i}/{d}" for i, d in others if ob2["tracks"].get(f"{i}/{d}") != full_ob["tracks"].get(f"{i}/{d}")]
+                if short:
+                    rec.violation("interference", f"[{victim}] made invalid ({kind}) and selected ({how}): the parse returned a chart, but the healthy "
+                                  f"selected track(s) {short[:4]} are missing from it or differ from the unrestricted parse", rc,
+                                  f"invalid-selected:healthy-tracks-lost:{kind}")
+                else:
+                    rec.cls("invalid_selected_section_tolerated")
 
 
 def run_shard(shard, rec, tier, seed):
@@ -333,6 +355,17 @@ def replay(case, rec):
                 rec.violation("interference", f"track {i}/{d} changed", case)
         if shared(ob) != shared(full_ob):
             rec.violation("interference", "shared sections changed", case)
+        if case["kind"].startswith("invalid"):
+            hdr = {model.header(i, d): (i, d) for i, d in model.ALL_PAIRS}
+            for o2 in (harness.parse(case["text"], harness.pairs(others[:1] + [hdr[case["victim"]]] + others[1:])), harness.parse(case["text"])):
+                rec.ev()
+                if not o2.ok:
+                    if not isinstance(o2.exc, harness.ALLOWED_ERRORS):
+                        rec.violation("interference", f"invalid selected section: {harness.exc_str(o2.exc)} is not a documented error", case)
+                    continue
+                ob2 = harness.obs(o2.chart)
+                if any(ob2["tracks"].get(f"{i}/{d}") != full_ob["tracks"].get(f"{i}/{d}") for i, d in others):
+                    rec.violation("interference", "invalid selected section: healthy selected tracks missing from the returned chart", case)
         return
     if case.get("baseline_text"):
         base, out2 = harness.parse(case["baseline_text"]), harness.parse(case["text"])
